@@ -211,6 +211,7 @@ class FunctionAnalysis:
         self.summary = Summary()
         self.self_name = None
         self.param_class: dict[str, ClassInfo] = {}
+        self.data_array_params: set[str] = set()
 
     def where(self, node) -> str:
         return f'{self.fi.file}:{self.fi.qualname}:{getattr(node, "lineno", self.fi.node.lineno)}'
@@ -236,6 +237,8 @@ class FunctionAnalysis:
             ci = self._class_of_ann(ann)
             if ci is not None:
                 self.param_class[p.arg] = ci
+            if ann.replace('scipp.', 'sc.') in ('sc.DataArray', 'DataArray'):
+                self.data_array_params.add(p.arg)
         if is_method and self.self_name and 'classmethod' not in decs:
             self.param_class[self.self_name] = self.fi.cls
         if a.vararg:
@@ -511,6 +514,12 @@ class FunctionAnalysis:
             self.eval(e.slice, env)
             if base.imm:
                 return IMM
+            if len(base.cont) == 1 and base.fields is None:
+                (tok,) = base.cont
+                if tok.startswith('p:') and tok[2:] in self.data_array_params and base.elem == frozenset({tok + '[]'}):
+                    # a slice of a data array parameter is a view; in-place arithmetic on it writes
+                    # the .data buffer of the parameter (coords and masks are not written)
+                    return AV(frozenset({f'{tok}.data'}), frozenset({f'{tok}.data[]'}))
             if base.fields is not None and isinstance(e.slice, ast.Constant):
                 f = dict(base.fields)
                 if str(e.slice.value) in f:
